@@ -137,13 +137,16 @@ class Profile:
     """Tolerances of one storage format.
 
     exact        everything bit-identical (pickle)
-    value_rtol   central value, covariance matrix, gradient (numbers written losslessly)
-    delta_rtol   fluctuations / replica means, in units of the scale the format stores them with
+    value_rtol   central value; 0.0 = bit-identical (numbers that are written losslessly and read without arithmetic)
+    cov_rtol     covariance matrix and gradient; 0.0 = bit-identical; cov_elementwise: relative to each entry (text with fixed digits)
+    delta_rtol   fluctuations / replica means, in units of the scale the format stores them with: the reader does
+                 stored - mean(stored) and mean(stored) + value, i.e. a pairwise sum over N <= 500 numbers and two
+                 additions, at most ~(log2 N + 3) eps = 2.7e-15 of the largest stored number; 4e-15 is used
     scale        'json': delta + (r_mean - value);  'dobs': that + the central value;  'pobs': delta + r_mean
     """
 
-    def __init__(self, fam, exact=False, value_rtol=1e-15, cov_rtol=1e-15, delta_rtol=1e-13, scale='json',
-                 drop_zero_grad=False, check_form=True, check_tag=True, check_rew=True, value_recomputed=False):
+    def __init__(self, fam, exact=False, value_rtol=0.0, cov_rtol=0.0, delta_rtol=4e-15, scale='json',
+                 drop_zero_grad=False, check_form=True, check_tag=True, check_rew=True, value_recomputed=False, cov_elementwise=False):
         self.fam = fam
         self.exact = exact
         self.value_rtol = value_rtol
@@ -155,6 +158,7 @@ class Profile:
         self.check_tag = check_tag
         self.check_rew = check_rew
         self.value_recomputed = value_recomputed     # the reader recomputes the central value from the samples
+        self.cov_elementwise = cov_elementwise
 
 
 def chain_scale(e, name, mode):
@@ -207,11 +211,12 @@ def cmp_snap(ctx, g, e, prof, where, name_map=None, skip_chains=(), detail=None)
             ok &= ctx.require(gr == er, fam + ':replica-mean', lambda: dict(det, chain=n, got=gr, exp=er))
         else:
             sc = chain_scale(e, n, prof.scale)
-            # a fluctuation is only defined up to the rounding of the replica mean it is measured from (sample = r_mean + delta): a frozen
-            # chain has fluctuations of a few ulp of the mean, which the formats reproduce only up to a common shift of that size
-            ok &= ctx.close(gd, ed, fam + ':fluctuations', where + ' chain ' + n, rtol=prof.delta_rtol, scale=sc,
-                            atol=1e-15 * (abs(er) + abs(float(e['value']))), detail=detail)
-            ok &= ctx.close(gr, er, fam + ':replica-mean', where + ' chain ' + n, rtol=prof.delta_rtol,
+            # every format stores the samples of a chain (as delta + offset) and the readers split them again into a mean and
+            # zero-mean fluctuations: the lossless image of (delta, r_mean) is (delta - <delta>, r_mean + <delta>).  <delta> is
+            # zero to rounding for ordinary chains; for a frozen chain, whose fluctuations are rounding noise, it is not.
+            shift = math.fsum(float(x) for x in ed) / len(ed) if len(ed) else 0.0
+            ok &= ctx.close(gd, np.asarray(ed, dtype=float) - shift, fam + ':fluctuations', where + ' chain ' + n, rtol=prof.delta_rtol, scale=sc, detail=detail)
+            ok &= ctx.close(gr, er + shift, fam + ':replica-mean', where + ' chain ' + n, rtol=prof.delta_rtol,
                             scale=sc + abs(er) + abs(float(e['value'])), detail=detail)
     ec, gc = e['cov'], g['cov']
     if prof.drop_zero_grad:
@@ -224,6 +229,11 @@ def cmp_snap(ctx, g, e, prof, where, name_map=None, skip_chains=(), detail=None)
         if prof.exact:
             ok &= ctx.require(np.array_equal(gcov, ecov), fam + ':covariance-matrix', lambda: dict(det, cov=n))
             ok &= ctx.require(np.array_equal(ggrad, egrad), fam + ':covariance-gradient', lambda: dict(det, cov=n, got=ggrad, exp=egrad))
+        elif prof.cov_elementwise:
+            for lab, gg, ee in (('covariance-matrix', gcov, ecov), ('covariance-gradient', ggrad, egrad)):
+                good = gg.shape == ee.shape and bool(np.all(np.abs(gg - ee) <= prof.cov_rtol * np.abs(ee)))
+                ok &= ctx.require(good, fam + ':' + lab, lambda: dict(det, cov=n, got=gg, exp=ee,
+                                                                       worst_relative=float(np.max(np.abs(gg - ee) / np.where(ee == 0, 1.0, np.abs(ee)))) if gg.shape == ee.shape else None))
         else:
             ok &= ctx.close(gcov, ecov, fam + ':covariance-matrix', where + ' cov ' + n, rtol=prof.cov_rtol, detail=detail)
             ok &= ctx.close(ggrad, egrad, fam + ':covariance-gradient', where + ' cov ' + n, rtol=prof.cov_rtol, detail=detail)
@@ -412,7 +422,8 @@ def jackknife_primary(pe, rng, chains, kind):
         x = rand_samples(rng, len(cfgs), kind)
         tot = float(np.sum(x))
         jm = (tot - x) / (len(x) - 1)
-        f = (lambda y: y + 0.3 * y * y) if rng.random() < 0.5 else (lambda y: np.exp(0.2 * y))
+        # non-linear but of linear growth, so that nothing built on top of it (products, exp(0.05 o), magnitudes up to 1e200) overflows
+        f = (lambda y: y + 0.3 * y * y / (1.0 + np.abs(y))) if rng.random() < 0.5 else (lambda y: y + np.sin(y))
         jacks = np.concatenate([[f(tot / len(x))], f(jm)])
         part = pe.import_jackknife(jacks, n, idl=[list(cfgs)])
         o = part if o is None else o + part
@@ -439,6 +450,10 @@ def _primary(pe, rng, chains, kind, table=None, frozen=True):
         x = rand_samples(rng, len(cfgs), kind)
         if n == frozen_chain:
             x = np.full(len(cfgs), float(rng.choice([0.0, 1.0, -2.0, 0.5])))
+            if rng.random() < 0.4:
+                # near, not at, the special value: almost frozen (distinct numbers 1e-12 .. 1e-6 apart, none exactly the constant)
+                x = x + float(10.0 ** rng.uniform(-12, -6)) * (rng.permutation(len(cfgs)) + 1.0)
+                _stat('almost_frozen_replica_chains')
             _stat('frozen_replica_chains')
         if table is not None:
             table[n] = {int(c): float(v) for c, v in zip(cfgs, x)}
